@@ -40,6 +40,23 @@ let install register get =
         str_of q ^ ":" ^ (match k with FsTree.KDir -> "d" | FsTree.KFile -> "f" | FsTree.KLink -> "l")) t) in
       Printf.sprintf "res=%s tree=%s" (match c with FsTree.TOk -> "ok" | FsTree.TNotExist -> "notexist" | FsTree.TOther -> "other")
         (if ents = [] then "-" else String.concat ";" ents) in
+  register "replymap" (fun kv ->
+    let n = nat_of_int (int_of_string (get kv "n")) in
+    let e = match get kv "err" with
+      | "nil" -> Reply.HNil | "eof" -> Reply.HEOF
+      | s -> Reply.HErr (n_of_hex (String.sub s 5 (String.length s - 5))) (* code:<hex> *) in
+    let r = match get kv "op" with
+      | "read" | "readrw" -> Reply.read_reply n e
+      | "write" -> Reply.write_reply e
+      | "list" -> Reply.list_reply n e
+      | "stat" | "lstat" -> Reply.stat_reply n e
+      | "readlink" -> Reply.readlink_reply n e
+      | o -> failwith ("bad op " ^ o) in
+    (match r with
+     | Reply.RData k -> Printf.sprintf "reply=data:%d" (int_of_nat k)
+     | Reply.RNames k -> Printf.sprintf "reply=names:%d" (int_of_nat k)
+     | Reply.RAttrs -> "reply=attrs" | Reply.RName1 -> "reply=name1"
+     | Reply.RStatus c -> Printf.sprintf "reply=status:%d" (int_of_n c)));
   register "closewire" (fun kv ->
     let w = get kv "wire" in
     let evs = if w = "-" then [] else List.init (String.length w) (fun i ->
